@@ -326,10 +326,10 @@ def scalars(big=True, surrogates=True):
     )
 
 
-def _containers(children):
+def _containers(children, surrogates=True):
     tup_small = st.lists(children, max_size=6).map(lambda xs: ["tuple", xs])
     # long tuples repeat one *small scalar* (a recursive child here would grow as 300**depth)
-    tup_edge = st.tuples(scalars(big=False), st.sampled_from([5, 254, 255, 256, 257, 300])).map(
+    tup_edge = st.tuples(scalars(big=False, surrogates=surrogates), st.sampled_from([5, 254, 255, 256, 257, 300])).map(
         lambda t: ["tuplerep", t[0], t[1]])
     fset = st.lists(children, max_size=5).map(lambda xs: ["fset", xs])
     slc = st.tuples(children, children, children).map(lambda t: ["slice", t[0], t[1], t[2]])
@@ -338,7 +338,7 @@ def _containers(children):
 
 def immutables(big=True, surrogates=True, max_leaves=12):
     """every brine shape, by construction"""
-    return st.recursive(scalars(big, surrogates), _containers, max_leaves=max_leaves)
+    return st.recursive(scalars(big, surrogates), lambda ch: _containers(ch, surrogates), max_leaves=max_leaves)
 
 
 _NONPLAIN_LEAVES = [["list", []], ["list", [["int", "1"]]], ["set", []], ["dict", []],
